@@ -3,6 +3,9 @@
 package engine
 
 import (
+	"os"
+	"path/filepath"
+
 	"github.com/KevoDB/kevo/pkg/config"
 	"github.com/KevoDB/kevo/pkg/wal"
 	"github.com/KevoDB/kevo/pkg/zzverif/vsym"
@@ -20,6 +23,9 @@ const (
 	hReopen
 	hBatch
 	hCompact
+	hPutFlush // put immediately followed by a flush (one step, to reach deep table arrangements with short programs)
+	hDelFlush // delete immediately followed by a flush
+	hRetire // close, remove the (fully flushed) log files like WAL retention would, reopen: reads must come from SSTables
 	hNumOps
 )
 
@@ -32,6 +38,8 @@ type hEnv struct {
 	val     [3][]byte
 	flushes int
 	reopens int
+	retires int
+	dirty   bool // a write happened since the last flush (its data may exist only in memtable + log)
 	steps   []string
 }
 
@@ -86,6 +94,9 @@ func (h *hEnv) hStep(mask int, maxVK int) {
 			if op == hReopen && h.reopens >= 2 {
 				continue
 			}
+			if op == hRetire && (h.dirty || h.retires >= 2) {
+				continue
+			}
 			allowed = append(allowed, op)
 		}
 	}
@@ -97,10 +108,25 @@ func (h *hEnv) hStep(mask int, maxVK int) {
 		v := hValue(maxVK)
 		vsym.Assert(e.Put(h.K[ki], v) == nil, "Put failed")
 		h.present[ki], h.val[ki] = true, v
+		h.dirty = true
+	case hPutFlush:
+		ki := vsym.IntRange("ki", 0, h.nk-1)
+		v := hValue(maxVK)
+		vsym.Assert(e.Put(h.K[ki], v) == nil, "Put failed")
+		h.present[ki], h.val[ki] = true, v
+		vsym.Assert(e.FlushImMemTables() == nil, "Flush failed")
+		h.dirty = false
+	case hDelFlush:
+		ki := vsym.IntRange("ki", 0, h.nk-1)
+		vsym.Assert(e.Delete(h.K[ki]) == nil, "Delete failed")
+		h.present[ki] = false
+		vsym.Assert(e.FlushImMemTables() == nil, "Flush failed")
+		h.dirty = false
 	case hDelete:
 		ki := vsym.IntRange("ki", 0, h.nk-1)
 		vsym.Assert(e.Delete(h.K[ki]) == nil, "Delete failed")
 		h.present[ki] = false
+		h.dirty = true
 	case hTx:
 		tx, err := e.BeginTransaction(false)
 		vsym.Assert(err == nil, "BeginTransaction failed")
@@ -120,12 +146,14 @@ func (h *hEnv) hStep(mask int, maxVK int) {
 		if vsym.IntRange("commit", 0, 1) == 1 {
 			vsym.Assert(tx.Commit() == nil, "Commit failed")
 			h.present, h.val = tp, tv
+			h.dirty = true
 		} else {
 			vsym.Assert(tx.Rollback() == nil, "Rollback failed")
 		}
 	case hFlush:
 		vsym.Assert(e.FlushImMemTables() == nil, "Flush failed")
 		h.flushes++
+		h.dirty = false
 	case hReopen:
 		vsym.Assert(e.Close() == nil, "Close failed")
 		h.hOpen(false, false)
@@ -147,8 +175,20 @@ func (h *hEnv) hStep(mask int, maxVK int) {
 		}
 		vsym.Assert(e.ApplyBatch(b) == nil, "ApplyBatch failed")
 		h.present, h.val = tp, tv
+		h.dirty = true
 	case hCompact:
 		vsym.Assert(e.TriggerCompaction() == nil, "TriggerCompaction failed")
+	case hRetire:
+		vsym.Assert(e.Close() == nil, "Close failed")
+		ents, err := os.ReadDir(filepath.Join(h.dir, "wal"))
+		vsym.Assert(err == nil, "ReadDir(wal) failed")
+		for _, en := range ents {
+			if !en.IsDir() && filepath.Ext(en.Name()) == ".wal" {
+				vsym.Assert(os.Remove(filepath.Join(h.dir, "wal", en.Name())) == nil, "removing a retired log file failed")
+			}
+		}
+		h.hOpen(false, false)
+		h.retires++
 	}
 }
 
